@@ -396,6 +396,8 @@ class SAMIWriter(BaseWriter):
 
     def write(self, caption_set):
         caption_set = deepcopy(caption_set)
+        # no span can be open when a document starts, whatever was written before
+        self.open_span = False
         sami = BeautifulSoup(SAMI_BASE_MARKUP, "lxml-xml")
 
         caption_set.layout_info = self._relativize_and_fit_to_screen(
